@@ -114,8 +114,15 @@ def _c20(prop, tier, seed, t0):
     allc = os.path.join(wd, "reenter.all")
     cnt = vlib.gen_cases(exe, allc, "solve:base,hints,hintsall,soft", n, seed, "reenter", whitebox=False, render=False)
     files = vlib.split_file(allc, 8, wd, "reenter")
+    # ... and what the solver is handed as "sorted candidates" for long candidate lists
+    # (18-45 candidates, favored somewhere in the middle): the candidate sequence of every
+    # requires clause must be Universe!Sorted (rule C07_ClauseCandidateOrder)
+    allm = os.path.join(wd, "many.all")
+    vlib.gen_cases(exe, allm, "solve:manycands", 40 if tier == "quick" else 800, seed, "hints", whitebox=True,
+                   render=False, first_id=700001)
+    files += vlib.split_file(allm, 8, wd, "many")
     res = vlib.run_and_validate(exe, files, prop)
-    fails = [f for f in vlib.first_fail_per_run(res.fails) if check.owner(f["rule"]) == prop]
+    fails = [f for f in vlib.first_fail_per_run(res.fails) if check.owned_by(prop, f["rule"])]
     ev = json.load(open(os.path.join(vlib.EVIDENCE, f"{prop}.json")))
     ev["coverage"]["reentrant_runs_validated"] = res.runs
     ev["coverage"]["reentrant_trace_events"] = res.transitions
@@ -134,6 +141,7 @@ import json, os, time
 import vlib
 CHECKS["C18"] = _c18
 CHECKS["C20"] = _c20
+check.ALSO["C20"] = ["C07_ClauseCandidateOrder"]
 META["C18"] = _m("TLC checks InternUnique on the Pool model and prints its complete state graph (names, strings, version sets interned by value; solvables and unions fresh and dense), optionally preceded by a bulk load of 127-129 (thorough: 126-300) items per table so that later operations cross the arenas' 128-element chunk boundaries; every transition is replayed on a real Pool, comparing returned ids, all tables, lookups, and that every reference handed out earlier still has the same address and value. In the other direction long random histories (1 200 / 2 500 intern, lookup and resolve calls each, several hundred items per table) recorded from a real Pool are followed through Pool.tla by TLC (Trace_Pool.tla): returned ids, a resolved value per call, and stability of everything handed out before.", "6 C18", "TLC state-graph generation + replay of every transition into the real Pool; TLA+ trace validation of long random histories",
                  note="Trusted: Pool.tla; address stability is observed (pointer equality of re-resolved references), undefined behaviour that does not move memory is invisible. Bounded alphabet.")
 META["C20"] = _m("TLC checks Partition and SortedIsPermutation on the Cache model and prints the complete query graph over a family of two-package universes (favored in every position, hints none/all/some, missing package, empty version set, union requirement); every transition is replayed on a real SolverCache comparing the returned value, the exact sequence of provider calls (none for a repeated query) and the availability answer for every solvable. In addition real solves whose sort_candidates re-enters the cache are validated by TLC (C20_Availability).", "6 C20", "TLC state-graph generation + replay into the real SolverCache; TLA+ trace validation of re-entrant queries",
@@ -163,9 +171,9 @@ def _c06(prop, tier, seed, t0):
     check.enable_rules(prop)
     exe = vlib.build_harness("release")
     wd = vlib.fresh_dir(os.path.join(vlib.WORK, prop))
-    n = 60 if tier == "quick" else 1200
+    n = 90 if tier == "quick" else 1800
     allc = os.path.join(wd, "rep.all")
-    total = vlib.gen_cases(exe, allc, "repeat:base,midconflict,soft,hints,cyclic,unionoverlap", n, seed, "", whitebox=False,
+    total = vlib.gen_cases(exe, allc, "repeat:base,midconflict,soft,hints,cyclic,unionoverlap,multilock,locks,excl", n, seed, "", whitebox=False,
                            extra=["--reps", "4"])
     shards = vlib.split_file(allc, 8 if tier == "quick" else 32, wd, "rep")
     merged = []
@@ -264,7 +272,7 @@ def _c16(prop, tier, seed, t0):
 CHECKS["C16"] = _c16
 check.ALSO["C16"] = ["C02_VerdictDiffers", "C02_UnsatButSatisfiable", "C04_Panic", "C01_V_RootReq", "C01_V_RootCons",
                      "C01_V_Known", "C01_V_Req", "C01_V_Cons", "C01_V_Excluded", "C01_V_Locked", "C01_V_OnePerName",
-                     "C01_DupInSolution"]
+                     "C01_DupInSolution", "C01_NotASolvable"]
 check.NONTRIVIAL["C16"] = ("captured", "a snapshot was captured and interrogated")
 META["C16"] = _m("For generated providers with sparse, shuffled ids and random seed choices (names / version sets / solvables, the highest-numbered version set included), TLC compares the captured id sets with the closure Snapshot!Capture and every answer of the SnapshotProvider (candidates, exclusions, preference order, matching / non-matching lists, dependency records with union members in order) with the live universe; ids returned by add_package_requirement must be fresh and every captured version set must answer unchanged afterwards; the problem is solved live and through the snapshot (before and after a serde round trip) and TLC requires equal verdicts and solutions valid against the live data.", "6 C16", "TLA+ trace validation (TLC) of SnapshotProvider answers against Snapshot.tla; paired solves")
 
@@ -371,7 +379,7 @@ def _c17(prop, tier, seed, t0):
 
 CHECKS["C17"] = _c17
 check.ALSO["C17"] = ["C02_UnsatButSatisfiable", "C01_V_RootReq", "C01_V_RootCons", "C01_V_Req", "C01_V_Cons",
-                     "C01_V_Excluded", "C01_V_Locked", "C01_V_OnePerName", "C01_DupInSolution", "C04_Panic", "C04_Crash"]
+                     "C01_V_Excluded", "C01_V_Locked", "C01_V_OnePerName", "C01_DupInSolution", "C01_NotASolvable", "C04_Panic", "C04_Crash"]
 check.NONTRIVIAL["C17"] = ("cpp_paired", "a problem solved through C++ and through Rust, results compared")
 META["C17"] = _m("Generated problems (everything the C++ interface can express: requirements, constraints, soft requirements, unions, favored / locked / excluded candidates, hint lists) are solved through resolvo::solve with a C++ DependencyProvider and through the Rust API with the equivalent provider; the two results are placed side by side in one trace and TLC requires the identical solution sequence or the identical error text (and judges both against the oracle). The C++ drivers are compiled from the freshly built binding with AddressSanitizer and LeakSanitizer, layout static_asserts included; the container protocol is model checked (CowVector.tla) and every transition of its state graph is replayed by a C++ driver through the real Vector / String on both sides of the FFI.", "6 C17", "TLA+ trace validation (TLC) of paired C++/Rust results; TLC state graph of the copy-on-write container protocol replayed in C++ under ASan",
                  note="What TLC decides is the refcount / copy-on-write protocol and the result equality; memory errors are observed by the sanitizers during the runs, not proved absent. MSan / TSan are not used (single-threaded use).")
